@@ -39,7 +39,39 @@ func c07Families() []c07Family {
 		{"named-intern", []reflect.Type{T(types.Named{}), T(types.Tree{}), T([]types.Named(nil)), T(types.Mixed{}), T(types.Embeds{})}},
 		{"intern-on-structs", []reflect.Type{T(types.Place{}), T(types.Visit{}), T([]types.Place(nil)), pt(T(types.Visit{})), T(types.Place{}), T(map[string]types.Place(nil))}},
 		{"mixed", []reflect.Type{T(types.Mixed{}), pt(T(types.Mixed{})), T([]types.Mixed(nil)), T(types.Leaf{}), T([]types.Leaf(nil))}},
+		c07CustomFamily(),
 	}
+}
+
+// tableStrCodec is a codec a user registers BY VALUE for the named string type types.MyStr: it
+// encodes exactly like the string codec it embeds, but as a Go value it carries a table (a slice),
+// so it cannot be compared or used as a map key (round 12: k07)
+type tableStrCodec struct {
+	plenccodec.StringCodec
+	names []string
+}
+
+const c07CustomName = "custom-codec-by-value"
+
+// c07CustomFamily: struct types that hold the custom-coded type directly and behind the pointer,
+// slice and map wrappers the library builds around its codec
+func c07CustomFamily() c07Family {
+	ms := reflect.TypeOf(types.MyStr(""))
+	inner := reflect.StructOf([]reflect.StructField{
+		{Name: "S", Type: ms, Tag: `plenc:"1"`}, {Name: "P", Type: reflect.PointerTo(ms), Tag: `plenc:"2"`}, {Name: "L", Type: reflect.SliceOf(ms), Tag: `plenc:"3"`}, {Name: "N", Type: reflect.TypeOf(0), Tag: `plenc:"4"`}})
+	outer := reflect.StructOf([]reflect.StructField{
+		{Name: "I", Type: inner, Tag: `plenc:"1"`}, {Name: "PI", Type: reflect.PointerTo(inner), Tag: `plenc:"2"`}, {Name: "LI", Type: reflect.SliceOf(inner), Tag: `plenc:"3"`},
+		{Name: "M", Type: reflect.MapOf(reflect.TypeOf(""), ms), Tag: `plenc:"4"`}, {Name: "LP", Type: reflect.SliceOf(reflect.PointerTo(ms)), Tag: `plenc:"6"`}, {Name: "X", Type: ms, Tag: `plenc:"7,intern"`}})
+	return c07Family{c07CustomName, []reflect.Type{outer, inner, reflect.SliceOf(inner), reflect.PointerTo(outer), reflect.MapOf(reflect.TypeOf(""), inner), reflect.SliceOf(reflect.PointerTo(ms)), reflect.SliceOf(outer)}}
+}
+
+// famInst is a new instance for a trial on the family
+func famInst(cfg model.Cfg, fam c07Family) *plenc.Plenc {
+	p := instNew(cfg)
+	if fam.name == c07CustomName {
+		p.RegisterCodec(reflect.TypeOf(types.MyStr("")), tableStrCodec{names: []string{"a", "b"}})
+	}
+	return p
 }
 
 type c07Op struct {
@@ -200,7 +232,7 @@ func hasNaNKey(v reflect.Value, depth int) bool {
 // c07Prepare builds the operations of a trial and their expected results on a
 // reference instance whose codecs are built sequentially
 func c07Prepare(r *rand.Rand, cfg model.Cfg, fam c07Family, nworkers, nops int) [][]*c07Op {
-	ref := instNew(cfg)
+	ref := famInst(cfg, fam)
 	ops := make([][]*c07Op, nworkers)
 	for w := range ops {
 		for i := 0; i < nops; i++ {
@@ -671,7 +703,7 @@ func c07Case(c *core.Ctx, idx int) {
 		nops = 4
 	}
 	ops := c07Prepare(r, cfg, fam, nworkers, nops)
-	p := instNew(cfg) // fresh instance: first use happens in this trial
+	p := famInst(cfg, fam) // fresh instance: first use happens in this trial
 	var mu sync.Mutex
 	var failures []string
 	fns := make([]func(), nworkers)
@@ -807,7 +839,7 @@ func c07Systematic(c *core.Ctx, idx int) {
 	r := rand.New(rand.NewPCG(uint64(c.Seed), uint64(idx%len(scs))+77))
 	ops := c07Prepare(r, cfg, sc.fam, 2, 3)
 	exec := func(first int, switches []int) (steps int, fail string, stuck bool) {
-		p := instNew(cfg)
+		p := famInst(cfg, sc.fam)
 		var mu sync.Mutex
 		var failures []string
 		fns := make([]func(), 2)
